@@ -1204,8 +1204,11 @@ impl WorldD {
         cands.push(addr_of(&format!("sometoken{}", rng.below(4))));
         let c = rng.pick(&cands).clone();
         let cur = self.obs.as_ref().and_then(|o| o.snap.allowed.iter().find(|a| a.0 == c).map(|a| a.1));
-        let g = match (cur, rng.below(9)) {
+        let dflt = self.obs.as_ref().and_then(|o| o.snap.default_gas_limit);
+        let g = match (cur, rng.below(10)) {
             (_, 0) => Value::Null,
+            // exactly the configured default (and its neighbours): a listing like any other
+            (_, 9) if dflt.is_some() => json!(dflt.unwrap().saturating_add(*rng.pick(&[0u64, 0, 0, 1]))),
             (_, 8) => json!(*rng.pick(&[0u64, 0, 1, u64::MAX])), // explicit zero is a legal limit, not "no limit"
             (Some(Some(x)), 1) => json!(x.saturating_sub(1)),
             (Some(Some(x)), 2) => json!(x),
